@@ -27,7 +27,7 @@ ASSUMPTIONS = [
     'hierarchies CPython rejects and root modules named like summary pages are outside the alphabet',
 ]
 FLOOR = {'quick': 300, 'thorough': 1500}
-SPACE = {'quick': 'histories <= 3 over 39 events x 2 schedules', 'thorough': 'histories <= 4 over 39 events x 2 schedules'}
+SPACE = {'quick': 'histories <= 3 over 41 events x 2 schedules', 'thorough': 'histories <= 4 over 41 events x 2 schedules'}
 
 EVENTS: Dict[str, List[Tuple[str, str]]] = {
     'defC':   [('a', 'class X:\n    def m(self): pass\n')],
@@ -74,6 +74,11 @@ EVENTS: Dict[str, List[Tuple[str, str]]] = {
     'dup-root-package': [('rp/x', 'class PX1:\n    def m(self): pass\n'), ('rp#2/x', 'class PX2:\n    def n(self): pass\n')],
     'dotted-field': [('a', 'class X:\n    """\n    @ivar foo.bar: x\n    @type foo.bar: int\n    """\n    class foo:\n        bar = 1\n')],
     'zope-attr-over-method': [('b', 'from zope.interface import Interface, Attribute\nclass IM(Interface):\n    def x(): pass\n    x = Attribute("doc")\n    y = Attribute("doc")\n    def y(): pass\n')],
+    'zopecall-in-function': [('b', 'from zope.interface.interface import InterfaceClass\nclass PIC(InterfaceClass): pass\ndef make0(name):\n    IDyn = PIC(name)\n    IDyn2 = InterfaceClass("IDyn2")\n    return IDyn\n'
+                                   'class Reg0:\n    def lookup(self):\n        IFound = InterfaceClass("IFound")\n        self.IAttr = PIC("IAttr")\n        return IFound\n')],
+    # a second root whose name extends the first root's name: an interface moved by a re-export there, implemented under its old name
+    'zope-moved-in-prefixed-root': [('pq/__init__', 'from ._i import IExtra\n__all__ = ["IExtra"]\n'), ('pq/_i', 'from zope.interface import Interface\nclass IExtra(Interface):\n    def ex(): pass\n'),
+                                    ('pq/impl', 'from zope.interface import implementer\nfrom pq._i import IExtra\n@implementer(IExtra)\nclass Extra:\n    def ex(self): pass\n')],
     'rename-module': [('p', 'from . import a as amod\n__all__ = ["amod"]\n')],
     'zopeimp': [('b', 'from zope.interface import implementer\nfrom .a import IY\nfrom p import IY as IYY\n@implementer(IY)\nclass U1: pass\n@implementer(IYY)\nclass U2: pass\n')],
 }
@@ -83,7 +88,7 @@ ORDERS = [('a', 'b'), ('b', 'a')]
 
 
 def program(hist: Sequence[str]) -> Dict[str, str]:
-    src = {'p': '', 'a': '', 'b': '', 'r': '', 'r#2': '', 'rp/x': '', 'rp#2/x': ''}
+    src = {'p': '', 'a': '', 'b': '', 'r': '', 'r#2': '', 'rp/x': '', 'rp#2/x': '', 'pq/__init__': '', 'pq/_i': '', 'pq/impl': ''}
     top = {'p': '', 'a': '', 'b': ''}
     for e in hist:
         for m, s in EVENTS[e]:
@@ -109,6 +114,10 @@ def build(src: Dict[str, str], order: Sequence[str]) -> Any:
         if src.get(key):
             b.addModuleString('', 'rp', None, is_package=True)
             b.addModuleString(src[key], 'x' if key == 'rp/x' else 'y', 'rp')
+    if src.get('pq/_i'):
+        b.addModuleString(src['pq/__init__'], 'pq', None, is_package=True)
+        b.addModuleString(src['pq/_i'], '_i', 'pq')
+        b.addModuleString(src['pq/impl'], 'impl', 'pq')
     b.buildModules()
     return s
 
@@ -124,6 +133,23 @@ def inside_replaced_module(o: Any) -> bool:
                 return True
         o = o.parent
     return False
+
+
+def follow(s: Any, name: str, depth: int = 0) -> Any:
+    """the object a (possibly outdated) qualified name leads to: registered under that name, or reached through the import / move aliases of its prefix"""
+    o = s.allobjects.get(name)
+    if o is not None or depth > 6 or '.' not in name:
+        return o
+    head, _, last = name.rpartition('.')
+    parent = follow(s, head, depth + 1)
+    if parent is None:
+        return None
+    if last in parent.contents:
+        return parent.contents[last]
+    target = getattr(parent, '_localNameToFullName_map', {}).get(last)
+    if target and target != name:
+        return follow(s, target, depth + 1)
+    return None
 
 
 def invariants(s: Any) -> List[str]:
@@ -195,10 +221,7 @@ def invariants(s: Any) -> List[str]:
                 bad.append('I7-subclass-duplicate')
             # I8 zope
             for iname in getattr(o, 'implements_directly', []) or []:
-                try:
-                    io = s.find_object(iname) if hasattr(s, 'find_object') else s.objForFullName(iname)
-                except LookupError:
-                    io = None       # a name that leads nowhere in this history (the interface is not defined)
+                io = follow(s, iname)      # reference reading of a possibly outdated name: the registry, else the alias left where the object was defined
                 if io is not None and hasattr(io, 'implementedby_directly') and o not in io.implementedby_directly:
                     bad.append('I8-implements-without-implementedby')
             for impl in getattr(o, 'implementedby_directly', []) or []:
